@@ -229,7 +229,10 @@ func analyseC11(c ReqCase) (*c11Info, *Fail) {
 	if !out.OK {
 		return nil, failf("majority-accepted", "valid majority request rejected: %s", out.Err)
 	}
-	w := numMap(v.MP["weights"])
+	w, _, wok := finalWeights(v, r, snap.critIds())
+	if !wok {
+		return nil, failf("params-reconstruct", "cannot reconstruct the weight of every final criterion %v from request and reports", snap.critIds())
+	}
 	policy := str(v.MP["drawResolution"])
 	if policy == "" {
 		policy = "allow"
@@ -364,9 +367,9 @@ func analyseC11(c ReqCase) (*c11Info, *Fail) {
 func genC11(t *rapid.T) ReqCase {
 	g := G{t}
 	o := GenOpts{Methods: []string{"majorityHeuristic"}, MaxAlts: 6, MaxCrit: 4, ValueMode: -1, TieHeavy: g.Chance(2, 3)}
-	o.Biases = []string{"fatigue", "preferenceReversal"}
-	if g.Chance(1, 5) {
-		o.MaxBiases = 1
+	// any bias may precede: the oracle reads the final state from the probe and the weights of added criteria from the reports
+	if g.Chance(1, 3) {
+		o.MaxBiases = 2
 	}
 	if g.Chance(1, 2) {
 		o.FixedOrder = true
